@@ -1,5 +1,6 @@
 """Decision procedure shared by every property check (DESIGN §1.2)."""
 import argparse
+import signal
 import concurrent.futures as cf
 import importlib
 import json
@@ -25,8 +26,29 @@ class CaseResult:
         self.real, self.model, self.monitor, self.sig, self.key, self.info = real, model, list(monitor), sig, key, info
 
 
+class CaseTimeout(BaseException):
+    pass
+
+
+def _alarm(signum, frame):
+    raise CaseTimeout()
+
+
+def run_with_timeout(fn, seconds, *a):
+    """run fn(*a) under a wall-clock alarm (the implementation under test may hang on a bad input)"""
+    old = signal.signal(signal.SIGALRM, _alarm)
+    signal.setitimer(signal.ITIMER_REAL, seconds)
+    try:
+        return fn(*a)
+    finally:
+        signal.setitimer(signal.ITIMER_REAL, 0)
+        signal.signal(signal.SIGALRM, old)
+
+
 class Check:
     prop = None
+    case_timeout = 30          # seconds per case; a case that exceeds it is reported, never waited for
+    hang_is_violation = False  # True for properties that are about termination (C19)
     level = 'proof'
     rule = ''
     trusted_base = []
@@ -103,7 +125,17 @@ def run_shard(modname, tier, seed, shard, nshards, replay_case=None):
 
     try:
         for origin, case in cases():
-            res = check.run_case(case, drv)
+            try:
+                res = run_with_timeout(check.run_case, check.case_timeout, case, drv)
+            except CaseTimeout:
+                if check.hang_is_violation:
+                    outcome = {'kind': 'failing-input', 'case': case, 'monitor': [f'no result within {check.case_timeout}s (hang)'],
+                               'key': 'hang', 'observed': 'timeout', 'model_output': None, 'origin': origin}
+                else:
+                    outcome = {'kind': 'harness-error', 'case': case,
+                               'trace': f'case did not finish within {check.case_timeout}s (implementation hang?); '
+                                        f'case hash {case_hash(case)}'}
+                break
             stats['evaluations'] += 1
             if res.info:
                 for k in res.info:
@@ -201,10 +233,21 @@ def main(modname, argv=None):
 
     n = check.workers.get(tier, 4)
     results = []
-    with cf.ProcessPoolExecutor(max_workers=n) as ex:
+    deadline = time.time() + (900 if tier == 'quick' else 5400)
+    ex = cf.ProcessPoolExecutor(max_workers=n)
+    try:
         futs = [ex.submit(run_shard, modname, tier, seed, s, n) for s in range(n)]
         for f in futs:
-            results.append(f.result())
+            try:
+                results.append(f.result(timeout=max(1, deadline - time.time())))
+            except cf.TimeoutError:
+                results.append(({'evaluations': 0, 'distinct': [], 'samples': [], 'known_hits': {}, 'corr_ok': 0, 'dist': {}},
+                                {'kind': 'harness-error', 'trace': 'shard exceeded the run deadline'}))
+    finally:
+        for pr in list(getattr(ex, '_processes', {}).values()):
+            if pr.is_alive():
+                pr.kill()
+        ex.shutdown(wait=False, cancel_futures=True)
 
     evaluations = sum(r[0]['evaluations'] for r in results)
     distinct = set()
